@@ -34,6 +34,21 @@ CLAIMED["C11"] = dict(
          "log_prob/rsample numerics sampled (seeded SPD covariances, float64, 1e-9).",
     technique="TLA+ exact-function model (index algebra, layout permutations) checked by TLC over the whole finite domain; every case replayed into the real class with exact label decoding")
 
+CLAIMED["C03"] = dict(
+    category="model_checking",
+    text="GPCache.tla models every cache that outlives a call (prediction strategy with mean/covar caches and grad hooks, kernel attribute caches of "
+         "InducingPointKernel/GridKernel, the variational strategy memo and its flags) with tags recording what each entry was computed from, and "
+         "every invalidation site of the code as a constant; TLC checks NoStaleServe / NoStrategyWhileTraining over all histories of the public "
+         "operations for four families and rejects six models with one invalidation removed (non-vacuity). All histories up to the bound plus seeded "
+         "simulations are replayed on real exact / SGPR / KISS-GP / multitask / SVGP / unwhitened-SVGP models; every prediction is compared (mean and "
+         "covariance, 1e-8) with a freshly constructed model holding the same parameters and data under the same settings. Cache events recorded from "
+         "the replays and from repository tests are validated by TLC against CacheTrace.tla (NoStaleHit, NoStaleStrategy).",
+    design_ref="DESIGN.md section 6 (C03)",
+    note="Exhaustive over operation sequences up to length 3 (quick) / 4 (thorough) + simulations of depth 10; numeric inputs are seeded samples (6 training "
+         "points). The oracle is the code itself on a fresh object (its correctness is C01/C14's business). Settings that select approximations are outside "
+         "the alphabet. Direct parameter edits in eval mode are excluded by the property.",
+    technique="TLA+ cache state machine checked by TLC (incl. rejected broken variants); spec histories replayed on real models against fresh-model oracle; TLC trace validation of cache hook events")
+
 PENDING = "check not built yet (build in progress; see DESIGN.md section 11)"
 NOT_APPLICABLE = {}
 
